@@ -45,6 +45,7 @@ type harness struct {
 	tripped  atomic.Bool
 	envGone  int
 	memLimit uint64
+	logBuf   []byte
 }
 
 // per-case accumulation (flushed once per case to keep the reporter mutex cold)
@@ -132,8 +133,27 @@ func witness(in []byte, extra map[string]any) map[string]any {
 	return w
 }
 
+// logInput puts the input on disk BEFORE the parser is called, so that a
+// process-fatal event (stack exhaustion, out of memory) is attributable without
+// a replay. One write per input: "<length>\n<bytes>"; bytes beyond <length> are
+// stale remains of earlier, longer inputs.
+func (h *harness) logInput(in []byte) {
+	if h.curFile == nil {
+		return
+	}
+	h.logBuf = append(h.logBuf[:0], strconv.Itoa(len(in))...)
+	h.logBuf = append(h.logBuf, '\n')
+	h.logBuf = append(h.logBuf, in...)
+	h.curFile.WriteAt(h.logBuf, 0)
+}
+
+// sink receives verdicts; *rep.Case in TestVerif, a collector in FuzzRead.
+type sink interface {
+	Violation(sig, what string, witness any)
+}
+
 // read calls the real parser with the crash monitor around it.
-func (h *harness) read(c *rep.Case, in []byte, loc, phase string) (nodes []parser.Node, err error, crashed bool) {
+func (h *harness) read(c sink, in []byte, loc, phase string) (nodes []parser.Node, err error, crashed bool) {
 	defer func() {
 		if v := recover(); v != nil {
 			crashed = true
@@ -154,7 +174,7 @@ func truncate(s string, n int) string {
 }
 
 // judge runs every monitor of the statement's first two sentences on one input.
-func (h *harness) judge(c *rep.Case, st *stats, raw []byte, capNodes int64, origin string) verdictInfo {
+func (h *harness) judge(c sink, st *stats, raw []byte, capNodes int64, origin string) verdictInfo {
 	if len(raw) > maxInputLen {
 		raw = raw[:maxInputLen]
 	}
@@ -162,7 +182,7 @@ func (h *harness) judge(c *rep.Case, st *stats, raw []byte, capNodes int64, orig
 }
 
 // judgeAt: `in` is handed to the parser as is, with loc as its location.
-func (h *harness) judgeAt(c *rep.Case, st *stats, in []byte, loc string, capNodes int64, origin string) verdictInfo {
+func (h *harness) judgeAt(c sink, st *stats, in []byte, loc string, capNodes int64, origin string) verdictInfo {
 	toks := refLex(in)
 	cost, nImports, _ := estimateExpansion(toks, capNodes)
 	if cost > capNodes {
@@ -178,10 +198,7 @@ func (h *harness) judgeAt(c *rep.Case, st *stats, in []byte, loc string, capNode
 	}
 
 	// attribution of process-fatal events: the input is on disk before the call
-	if h.curFile != nil {
-		h.curFile.WriteAt(in, 0)
-		h.curFile.Truncate(int64(len(in)))
-	}
+	h.logInput(in)
 
 	st.evals++
 	st.count["inputs_parsed"]++
@@ -244,10 +261,7 @@ func (h *harness) judgeAt(c *rep.Case, st *stats, in []byte, loc string, capNode
 		st.count["roundtrip_not_judged/deeper-than-source-limit"]++
 	} else {
 		text := printTree(nodes)
-		if h.curFile != nil {
-			h.curFile.WriteAt([]byte(text), 0)
-			h.curFile.Truncate(int64(len(text)))
-		}
+		h.logInput([]byte(text))
 		st.evals++
 		st.count["roundtrip_judged"]++
 		if facts.nodes > 0 {
@@ -304,9 +318,16 @@ func (h *harness) run(i int, id string, fn func(c *rep.Case, st *stats)) {
 	})
 }
 
+// gcBallast: the live heap of this harness is a few MiB, so the collector would
+// run every few thousand inputs and dominate the profile (measured: 60% of the
+// CPU in sweep/lock contention). An untouched allocation moves the GC trigger.
+var gcBallast []byte
+
 func TestVerif(t *testing.T) {
 	r := rep.Open("C20")
 	defer r.Close()
+	gcBallast = make([]byte, 192<<20)
+	defer runtime.KeepAlive(gcBallast)
 	h := &harness{r: r, memLimit: 3 << 30}
 	h.envGone = envSetup()
 	sh, _ := r.Shard()
@@ -323,7 +344,7 @@ func TestVerif(t *testing.T) {
 
 	// ---- group A: grammar-generated, mutated and soup inputs, in batches ----
 	const per = 250
-	batches := r.N(400, 24000)
+	batches := r.N(400, 16000)
 	for b := 0; b < batches; b++ {
 		h.run(b, fmt.Sprintf("gen-batch-%d", b), func(c *rep.Case, st *stats) {
 			p := prng.New(r.Seed(), uint64(b), "c20/gen")
@@ -371,7 +392,7 @@ func TestVerif(t *testing.T) {
 
 	// ---- group D: feedback-guided mutation loop (thorough tier) ----
 	if r.Thorough() {
-		h.fuzzLoop(64, 150_000)
+		h.fuzzLoop(64, 60_000)
 	} else {
 		h.fuzzLoop(8, 6_000)
 	}
@@ -598,9 +619,7 @@ func (h *harness) targeted() {
 
 func (h *harness) lexEnum(maxLen int) {
 	k := len(lexAlphabet)
-	h.r.Set("exhaustive_lexical_alphabet", lexAlphabet)
-	h.r.Set("exhaustive_lexical_max_len", maxLen)
-	h.r.Set("exhaustive", true)
+	h.r.Set("exhaustive", map[string]any{"lexical_small_scope": fmt.Sprintf("all strings over the %d-symbol alphabet %q up to length %d (none skipped by the expansion caps unless by_origin/lex-enum/skipped is present); everything else is sampled", len(lexAlphabet), lexAlphabet, maxLen)})
 	for a := 0; a < k; a++ {
 		for b := 0; b < k; b++ {
 			i := groupE + a*k + b
@@ -713,4 +732,38 @@ func inputFeatures(in []byte) string {
 		}
 	}
 	return b.String()
+}
+
+// ---------------------------------------------------------------------------
+// Native fuzz target with the same oracle. Not run by the generic driver (see
+// NOTES.md, "native fuzzing"); usable by hand:
+//   go test -c -tags verif -overlay ... -fuzz=FuzzRead ; ./c20.test -test.run '^$' -test.fuzz '^FuzzRead$' -test.fuzzcachedir DIR
+
+type collector struct{ sigs []string }
+
+func (c *collector) Violation(sig, what string, witness any) {
+	c.sigs = append(c.sigs, sig+": "+what)
+}
+
+func FuzzRead(f *testing.F) {
+	envSetup()
+	for _, s := range fuzzSeeds {
+		f.Add([]byte(s))
+	}
+	for _, d := range macroDeclForms {
+		for _, u := range macroUseForms[:6] {
+			f.Add([]byte(d + u))
+		}
+	}
+	h := &harness{}
+	f.Fuzz(func(t *testing.T, data []byte) {
+		if len(data) > 8192 {
+			return
+		}
+		c := &collector{}
+		h.judge(c, newStats(), data, capMutated, "native-fuzz")
+		if len(c.sigs) > 0 {
+			t.Fatalf("C20 oracle: %s", strings.Join(c.sigs, "; "))
+		}
+	})
 }
